@@ -23,6 +23,7 @@ CONSTANTS
   NetMode,      \* "fifo" | "bag"
   MaxDup,       \* "bag": budget of duplicate deliveries
   MaxDrop,      \* "bag": budget of drops
+  MaxAtk,       \* budget of active-attacker steps (tampered copies, messages forged by E)
   MaxSMPStart, MaxSMPAnswer, MaxSMPAbort, \* budgets of SMP user calls
   Secrets,      \* set of secret ids users may enter
   AllPol,       \* TRUE: both parties' policies range over all 64 policy sets (Pol is ignored)
@@ -43,6 +44,7 @@ VARIABLES
   used,      \* party -> receiving MAC keys that verified an accepted message
   disclosedEver, \* party -> MAC keys disclosed in emitted messages
   leaks,     \* number of user texts emitted in clear although encryption was due
+  atkplain,  \* texts an attacker-made data message without a valid MAC got delivered
   ksess,     \* party -> session id pair at the moment the party last went (or stayed) secure
   nrun,      \* SMP runs started so far
   smplog,    \* party -> sequence of <<event, own term, term in the message>> for SMP outcomes
@@ -55,8 +57,8 @@ VARIABLES
   evlog,     \* party -> sequence of security events
   path       \* schedule (history, not part of the fingerprint)
 
-vars == <<st, net, nx, nt, nsend, pc, order, phase, budget, delivered, accepted, rejects, evlog, used, disclosedEver, leaks, txlog, nrun, smplog, ksess, path>>
-view == <<st, net, nx, nt, nsend, pc, order, phase, budget, delivered, accepted, rejects, evlog, used, disclosedEver, leaks, txlog, nrun, smplog, ksess>>
+vars == <<st, net, nx, nt, nsend, pc, order, phase, budget, delivered, accepted, rejects, evlog, used, disclosedEver, leaks, txlog, nrun, smplog, ksess, atkplain, path>>
+view == <<st, net, nx, nt, nsend, pc, order, phase, budget, delivered, accepted, rejects, evlog, used, disclosedEver, leaks, txlog, nrun, smplog, ksess, atkplain>>
 
 FreshId(p) == Base(p) + nx[p] + 1
 Uses(s, id) == s.ax = id \/ s.cur = id
@@ -81,10 +83,11 @@ Init ==
   /\ leaks = 0
   /\ txlog = <<>>
   /\ ksess = [p \in Parties |-> <<0, 0>>]
+  /\ atkplain = 0
   /\ nrun = 0
   /\ smplog = [p \in Parties |-> <<>>]
   /\ phase = IF Prelude # <<>> \/ PreludeDrain THEN "setup" ELSE "free"
-  /\ budget = [tick |-> MaxTick, end |-> MaxEnd, query |-> MaxQuery, extra |-> MaxExtra, dup |-> MaxDup, drop |-> MaxDrop, offer |-> MaxOffer,
+  /\ budget = [tick |-> MaxTick, end |-> MaxEnd, query |-> MaxQuery, extra |-> MaxExtra, dup |-> MaxDup, drop |-> MaxDrop, offer |-> MaxOffer, atk |-> MaxAtk,
                smpstart |-> MaxSMPStart, smpanswer |-> MaxSMPAnswer, smpabort |-> MaxSMPAbort]
   /\ delivered = [p \in Parties |-> <<>>]
   /\ accepted = [p \in Parties |-> <<>>]
@@ -127,7 +130,7 @@ DeliverMsg(p, m, own, idx, label) ==
        /\ smplog' = [smplog EXCEPT ![p] = @ \o [i \in 1..Len(SelectSeq(r.evs, LAMBDA e : e \in {"smp:Success", "smp:Failure", "smp:Cheated"})) |->
                                   <<SelectSeq(r.evs, LAMBDA e : e \in {"smp:Success", "smp:Failure", "smp:Cheated"})[i], st[p].smpsec,
                                     IF m.t = "D" THEN m.smp.sec ELSE <<>>, IF m.t = "D" THEN m.smp.run = st[p].smprun ELSE FALSE>>]]
-       /\ UNCHANGED <<nt, nsend, accepted, nrun>>
+       /\ UNCHANGED <<nt, nsend, accepted, nrun, atkplain>>
 
 \* FIFO delivery of the head of p's queue
 Deliver(p) ==
@@ -144,33 +147,33 @@ UserSend(p) ==
         /\ nt' = nt + 1
         /\ nsend' = [nsend EXCEPT ![p] = @ + 1]
         /\ accepted' = [accepted EXCEPT ![p] = IF st[p].ms = "enc" /\ ~r.err THEN Append(@, nt + 1) ELSE @]
-  /\ UNCHANGED <<phase, pc, budget, delivered, rejects, used, nrun, smplog, order>>
+  /\ UNCHANGED <<phase, pc, budget, delivered, rejects, used, nrun, smplog, order, atkplain>>
 
 UserQuery(p) ==
   /\ phase = "free" /\ budget.query > 0 /\ OTREnabled(st[p])
   /\ Effect(p, Query(st[p]), [a |-> "Query", p |-> p], net[p])
   /\ budget' = [budget EXCEPT !.query = @ - 1]
-  /\ UNCHANGED <<phase, pc, nt, nsend, delivered, accepted, rejects, used, nrun, smplog, order>>
+  /\ UNCHANGED <<phase, pc, nt, nsend, delivered, accepted, rejects, used, nrun, smplog, order, atkplain>>
 
 UserEnd(p) ==
   /\ phase = "free" /\ budget.end > 0
   /\ Effect(p, End(st[p]), [a |-> "End", p |-> p], net[p])
   /\ budget' = [budget EXCEPT !.end = @ - 1]
-  /\ UNCHANGED <<phase, pc, nt, nsend, delivered, accepted, rejects, used, nrun, smplog, order>>
+  /\ UNCHANGED <<phase, pc, nt, nsend, delivered, accepted, rejects, used, nrun, smplog, order, atkplain>>
 
 UserTick(p) ==
   /\ phase = "free" /\ budget.tick > 0
   /\ ~(st[p].hb /\ ~st[p].rstep /\ ~st[p].renc)
   /\ Effect(p, Tick(st[p]), [a |-> "Tick", p |-> p], net[p])
   /\ budget' = [budget EXCEPT !.tick = @ - 1]
-  /\ UNCHANGED <<phase, pc, nt, nsend, delivered, accepted, rejects, used, nrun, smplog, order>>
+  /\ UNCHANGED <<phase, pc, nt, nsend, delivered, accepted, rejects, used, nrun, smplog, order, atkplain>>
 
 UserExtra(p) ==
   /\ phase = "free" /\ budget.extra > 0 /\ st[p].ms = "enc"
   /\ Len(net[Other(p)]) < MaxFlight
   /\ Effect(p, ExtraKey(st[p]), [a |-> "ExtraKey", p |-> p], net[p])
   /\ budget' = [budget EXCEPT !.extra = @ - 1]
-  /\ UNCHANGED <<phase, pc, nt, nsend, delivered, accepted, rejects, used, nrun, smplog, order>>
+  /\ UNCHANGED <<phase, pc, nt, nsend, delivered, accepted, rejects, used, nrun, smplog, order, atkplain>>
 
 \* The prelude: a fixed sequence of user steps (the start pattern of a scenario),
 \* optionally followed by alternating deliveries until the network is quiet.
@@ -181,27 +184,27 @@ PreludeStep ==
            p == s.p
        IN /\ pc' = pc + 1
           /\ CASE s.a = "Query" -> /\ Effect(p, Query(st[p]), [a |-> "Query", p |-> p], net[p])
-                                     /\ UNCHANGED <<phase, budget, nt, nsend, delivered, accepted, rejects, used, nrun, smplog, order>>
+                                     /\ UNCHANGED <<phase, budget, nt, nsend, delivered, accepted, rejects, used, nrun, smplog, order, atkplain>>
                [] s.a = "Send" -> LET r == Send(st[p], nt + 1)
                                   IN /\ Effect(p, r, [a |-> "Send", p |-> p, t |-> nt + 1], net[p])
                                      /\ nt' = nt + 1
                                      /\ accepted' = [accepted EXCEPT ![p] = IF st[p].ms = "enc" /\ ~r.err THEN Append(@, nt + 1) ELSE @]
-                                     /\ UNCHANGED <<phase, budget, nsend, delivered, rejects, used, nrun, smplog, order>>
+                                     /\ UNCHANGED <<phase, budget, nsend, delivered, rejects, used, nrun, smplog, order, atkplain>>
                [] s.a = "Tick" -> /\ Effect(p, Tick(st[p]), [a |-> "Tick", p |-> p], net[p])
-                                  /\ UNCHANGED <<phase, budget, nt, nsend, delivered, accepted, rejects, used, nrun, smplog, order>>
+                                  /\ UNCHANGED <<phase, budget, nt, nsend, delivered, accepted, rejects, used, nrun, smplog, order, atkplain>>
                [] s.a = "End" -> /\ Effect(p, End(st[p]), [a |-> "End", p |-> p], net[p])
-                                 /\ UNCHANGED <<phase, budget, nt, nsend, delivered, accepted, rejects, used, nrun, smplog, order>>
+                                 /\ UNCHANGED <<phase, budget, nt, nsend, delivered, accepted, rejects, used, nrun, smplog, order, atkplain>>
                [] s.a = "Err" -> \* the peer's client sends an OTR error message to p
                                  /\ net' = [net EXCEPT ![p] = Append(@, ErrorMsg)]
                                  /\ path' = IF Export THEN Append(path, [a |-> "Err", p |-> p]) ELSE path
-                                 /\ UNCHANGED <<st, nx, nt, nsend, phase, budget, delivered, accepted, rejects, evlog, used, disclosedEver, leaks, txlog, nrun, smplog, ksess, order>>
+                                 /\ UNCHANGED <<st, nx, nt, nsend, phase, budget, delivered, accepted, rejects, evlog, used, disclosedEver, leaks, txlog, nrun, smplog, ksess, order, atkplain>>
                [] s.a = "Deliver" -> /\ net[p] # <<>>
                                      /\ DeliverMsg(p, Head(net[p]), Tail(net[p]), 0, "Deliver")
                                      /\ UNCHANGED <<phase, budget>>
      ELSE IF PreludeDrain /\ net["B"] # <<>> THEN Deliver("B") /\ pc' = pc
      ELSE IF PreludeDrain /\ net["A"] # <<>> THEN Deliver("A") /\ pc' = pc
      ELSE /\ phase' = "free"
-          /\ UNCHANGED <<st, net, nx, nt, nsend, pc, budget, delivered, accepted, rejects, evlog, used, disclosedEver, leaks, txlog, nrun, smplog, ksess, path, order>>
+          /\ UNCHANGED <<st, net, nx, nt, nsend, pc, budget, delivered, accepted, rejects, evlog, used, disclosedEver, leaks, txlog, nrun, smplog, ksess, path, order, atkplain>>
 
 \* "bag" network: the attacker picks any message in flight, may duplicate or drop
 DeliverAny(p) ==
@@ -223,7 +226,7 @@ Drop(p) ==
   /\ net' = [net EXCEPT ![p] = Tail(@)]
   /\ budget' = [budget EXCEPT !.drop = @ - 1]
   /\ path' = IF Export THEN Append(path, [a |-> "Drop", p |-> p]) ELSE path
-  /\ UNCHANGED <<st, nx, nt, nsend, pc, phase, delivered, accepted, rejects, evlog, used, disclosedEver, leaks, txlog, nrun, smplog, ksess, order>>
+  /\ UNCHANGED <<st, nx, nt, nsend, pc, phase, delivered, accepted, rejects, evlog, used, disclosedEver, leaks, txlog, nrun, smplog, ksess, order, atkplain>>
 
 FreeDeliver(p) == phase = "free" /\ NetMode = "fifo" /\ Deliver(p) /\ pc' = pc
 
@@ -233,20 +236,65 @@ UserSMPStart(p) ==
         /\ Effect(p, SMPStart(st[p], sec, q, nrun + 1), [a |-> "SMPStart", p |-> p, s |-> sec, q |-> q], net[p])
   /\ nrun' = nrun + 1
   /\ budget' = [budget EXCEPT !.smpstart = @ - 1]
-  /\ UNCHANGED <<phase, pc, nt, nsend, delivered, accepted, rejects, used, smplog, order>>
+  /\ UNCHANGED <<phase, pc, nt, nsend, delivered, accepted, rejects, used, smplog, order, atkplain>>
 
 UserSMPAnswer(p) ==
   /\ phase = "free" /\ budget.smpanswer > 0 /\ Len(net[Other(p)]) < MaxFlight
   /\ \E sec \in Secrets :
         Effect(p, SMPAnswer(st[p], sec), [a |-> "SMPAnswer", p |-> p, s |-> sec], net[p])
   /\ budget' = [budget EXCEPT !.smpanswer = @ - 1]
-  /\ UNCHANGED <<phase, pc, nt, nsend, delivered, accepted, rejects, used, nrun, smplog, order>>
+  /\ UNCHANGED <<phase, pc, nt, nsend, delivered, accepted, rejects, used, nrun, smplog, order, atkplain>>
 
 UserSMPAbort(p) ==
   /\ phase = "free" /\ budget.smpabort > 0 /\ st[p].ms = "enc" /\ Len(net[Other(p)]) < MaxFlight
   /\ Effect(p, SMPAbort(st[p]), [a |-> "SMPAbort", p |-> p], net[p])
   /\ budget' = [budget EXCEPT !.smpabort = @ - 1]
-  /\ UNCHANGED <<phase, pc, nt, nsend, delivered, accepted, rejects, used, nrun, smplog, order>>
+  /\ UNCHANGED <<phase, pc, nt, nsend, delivered, accepted, rejects, used, nrun, smplog, order, atkplain>>
+
+\* ------------------------------------------------------------------------
+\* The active attacker E: own long-term key, own DH exponent (id 301), sees everything in flight.
+\* It can deliver a copy of a message in flight with one field class damaged, or a message it builds
+\* itself: a DH-Commit / DH-Key with its own or a degenerate value, a Reveal-Signature / Signature
+\* message protected by the keys it shares with the victim (it ran the DH part itself) that carries
+\* its own key (a genuine exchange with E), or claims the peer's key (signature cannot verify).
+\* ------------------------------------------------------------------------
+EId == 301
+Tampered(m) ==
+  CASE m.t = "DHC" -> {[m EXCEPT !.enc = -1], [m EXCEPT !.hash = -1]}
+    [] m.t = "DHK" -> {[m EXCEPT !.gy = -2], [m EXCEPT !.gy = -1001]}
+    [] m.t = "RS"  -> {[m EXCEPT !.r = -1], [m EXCEPT !.xs.ok = FALSE], [m EXCEPT !.xs.sig = FALSE]}
+    [] m.t = "SIG" -> {[m EXCEPT !.xs.ok = FALSE], [m EXCEPT !.xs.sig = FALSE]}
+    [] m.t = "D"   -> {[m EXCEPT !.mac = <<0, 0>>], [m EXCEPT !.mac = <<0, 0>>, !.ctr = @ + 1], [m EXCEPT !.mac = <<0, 0>>, !.text = -1]}
+    [] OTHER -> {}
+  \cup (IF m.t \in {"DHC", "DHK", "RS", "SIG", "D"} /\ m.v = 3 THEN {[m EXCEPT !.st = 3], [m EXCEPT !.rt = 3], [m EXCEPT !.st = -1]} ELSE {})
+
+Forged(p) ==
+  LET s == st[p]
+      v == IF s.ver = 0 THEN 3 ELSE s.ver
+      hdr == [v |-> v, st |-> IF v = 3 THEN 3 ELSE 0, rt |-> IF v = 3 THEN s.otag ELSE 0]
+  IN {[t |-> "DHC", v |-> hdr.v, st |-> hdr.st, rt |-> hdr.rt, enc |-> EId, hash |-> EId],
+      [t |-> "DHC", v |-> hdr.v, st |-> hdr.st, rt |-> hdr.rt, enc |-> -2, hash |-> -2],
+      [t |-> "DHK", v |-> hdr.v, st |-> hdr.st, rt |-> hdr.rt, gy |-> EId]}
+     \cup {[t |-> "RS", v |-> hdr.v, st |-> hdr.st, rt |-> hdr.rt, r |-> EId,
+            xs |-> [ok |-> TRUE, kind |-> "R", s1 |-> EId, s2 |-> s.ax, pub |-> who, kid |-> 1, sig |-> (who = "E")]] : who \in {"E", Other(p)}}
+     \cup {[t |-> "SIG", v |-> hdr.v, st |-> hdr.st, rt |-> hdr.rt,
+            xs |-> [ok |-> TRUE, kind |-> "S", s1 |-> EId, s2 |-> s.ax, pub |-> who, kid |-> 1, sig |-> (who = "E")]] : who \in {"E", Other(p)}}
+
+\* what E is told is not delivered to the genuine peer
+AttackerDeliver(p) ==
+  /\ phase = "free" /\ budget.atk > 0
+  /\ \E m \in (UNION {Tampered(net[p][i]) : i \in DOMAIN net[p]}) \cup Forged(p) :
+       \E hi \in BOOLEAN :
+        LET r == ReceiveFrags(st[p], m, 1, FreshId(p), hi /\ m.t = "DHC" /\ st[p].auth = "awDHKey")
+        IN /\ st' = [st EXCEPT ![p] = r.s]
+           /\ nx' = [nx EXCEPT ![p] = IF Uses(r.s, FreshId(p)) /\ ~Uses(st[p], FreshId(p)) THEN @ + 1 ELSE @]
+           /\ evlog' = [evlog EXCEPT ![p] = @ \o SecEvents(r.evs)]
+           /\ ksess' = [ksess EXCEPT ![p] = IF \E i \in DOMAIN r.evs : r.evs[i] \in {"sec:GoneSecure", "sec:StillSecure"} THEN r.s.sess ELSE @]
+           /\ delivered' = [delivered EXCEPT ![p] = IF r.plain # NoText THEN Append(@, <<r.plain, ~Unflagged(r)>>) ELSE @]
+           /\ atkplain' = atkplain + (IF r.plain # NoText /\ Unflagged(r) /\ m.t = "D" /\ m.mac = <<0, 0>> THEN 1 ELSE 0)
+           /\ path' = IF Export THEN Append(path, [a |-> "Attack", p |-> p, m |-> m]) ELSE path
+  /\ budget' = [budget EXCEPT !.atk = @ - 1]
+  /\ UNCHANGED <<net, nt, nsend, pc, order, phase, accepted, rejects, used, disclosedEver, leaks, txlog, nrun, smplog>>
 
 \* an offer with an arbitrary version list, made by anybody (offers are not authenticated)
 InjectOffer(p) ==
@@ -257,11 +305,12 @@ InjectOffer(p) ==
                                                ELSE [t |-> "Q", vs |-> SetToSeq(vs)])]
        /\ path' = IF Export THEN Append(path, [a |-> "Offer", p |-> p, vs |-> SetToSeq(vs), tagged |-> tagged]) ELSE path
   /\ budget' = [budget EXCEPT !.offer = @ - 1]
-  /\ UNCHANGED <<st, nx, nt, nsend, pc, phase, delivered, accepted, rejects, evlog, used, disclosedEver, leaks, txlog, nrun, smplog, ksess, order>>
+  /\ UNCHANGED <<st, nx, nt, nsend, pc, phase, delivered, accepted, rejects, evlog, used, disclosedEver, leaks, txlog, nrun, smplog, ksess, order, atkplain>>
 
 Step ==
   \/ PreludeStep
   \/ \E p \in Parties : InjectOffer(p)
+  \/ \E p \in Parties : AttackerDeliver(p)
   \/ \E p \in Parties :
        \/ FreeDeliver(p)
        \/ UserSend(p) \/ UserQuery(p) \/ UserEnd(p) \/ UserTick(p) \/ UserExtra(p)
@@ -330,6 +379,12 @@ EncryptedExactly == \A p \in Parties : (st[p].ms = "enc") <=> (LastSec(p) \in {"
 NoLeak == leaks = 0
 \* C18: every text is transmitted at most once, plus at most one resend
 TransmitOnce == \A i, j \in DOMAIN txlog : i # j => txlog[i] # txlog[j]
+
+\* reachability sanity (expected to be VIOLATED): E can complete an exchange as itself
+EveNeverPeer == \A p \in Parties : ~(st[p].ms = "enc" /\ st[p].peer = "E")
+
+\* C02 with the active attacker: nothing it makes without the session's MAC key is delivered unflagged
+NoForgedPlain == atkplain = 0
 
 \* C01: an encrypted conversation reports the party that signed this very exchange, and
 \* its session secret is shared with that party's in-range DH value
